@@ -72,6 +72,9 @@ def gen_custom(rng, idx, args):
     else:
         c["query"], c["needs_prop"] = rng.choice(CSELECTS)
     c["query"] = c["query"].replace("$arg", "$" + var)
+    # a component may declare validators for several roles: only the one SHACL selects for the shape kind applies
+    c["role_mix"] = rng.random() < 0.4
+    c["on_prop"] = False
     return c
 
 
@@ -104,13 +107,36 @@ def custom_to_rdf(g, n, c):
     g.add((cc["node"], SH.parameter, p))
     g.add((p, SH.path, cc["param"]))
     v = cc["validator"]
+
+    def decoy_select(role):
+        d = BNode("dec%s%s" % (role[:1], str(cc["node"])[-6:]))
+        g.add((cc["node"], SH[role], d))
+        g.add((d, RDF.type, SH.SPARQLSelectValidator))
+        g.add((d, SH.select, Literal("SELECT $this ?value WHERE { $this ?anyp ?value }")))
+        g.add((d, SH.prefixes, EX.prefixes))
+        g.add((d, SH.message, Literal("validator of another role answered")))
+
+    mix, on_prop = cc.get("role_mix"), cc.get("on_prop")
+    other_role = "nodeValidator" if on_prop else "propertyValidator"
     if cc["kind"] == "ask":
         g.add((cc["node"], SH.validator, v))
         g.add((v, RDF.type, SH.SPARQLAskValidator))
         g.add((v, SH.ask, Literal(cc["query"])))
+        if mix:
+            decoy_select(other_role)
     else:
-        g.add((cc["node"], SH.nodeValidator, v))
-        g.add((cc["node"], SH.propertyValidator, v))
+        if mix:
+            g.add((cc["node"], SH.propertyValidator if on_prop else SH.nodeValidator, v))
+            decoy_select(other_role)
+            d = BNode("deca%s" % str(cc["node"])[-6:])
+            g.add((cc["node"], SH.validator, d))
+            g.add((d, RDF.type, SH.SPARQLAskValidator))
+            g.add((d, SH.ask, Literal("ASK { FILTER (false) }")))
+            g.add((d, SH.prefixes, EX.prefixes))
+            g.add((d, SH.message, Literal("generic validator answered although a specific one exists")))
+        else:
+            g.add((cc["node"], SH.nodeValidator, v))
+            g.add((cc["node"], SH.propertyValidator, v))
         g.add((v, RDF.type, SH.SPARQLSelectValidator))
         g.add((v, SH.select, Literal(cc["query"])))
     g.add((v, SH.prefixes, EX.prefixes))
